@@ -181,8 +181,14 @@ func ValidRect(rng *vkit.Rng) s2.Rect {
 	case 1:
 		return s2.FullRect()
 	case 2:
-		// inverted longitude interval, latitude at the poles
-		return s2.Rect{Lat: r1.Interval{Lo: -math.Pi / 2, Hi: math.Pi / 2}, Lng: s1.Interval{Lo: 3, Hi: -3}}
+		// inverted longitude interval, latitude at the poles, +-pi endpoints
+		return []s2.Rect{
+			{Lat: r1.Interval{Lo: -math.Pi / 2, Hi: math.Pi / 2}, Lng: s1.Interval{Lo: 3, Hi: -3}},
+			{Lat: r1.Interval{Lo: math.Pi / 2, Hi: math.Pi / 2}, Lng: s1.Interval{Lo: math.Pi, Hi: math.Pi}},
+			{Lat: r1.Interval{Lo: -1, Hi: 1}, Lng: s1.Interval{Lo: math.Pi, Hi: -3}},
+			{Lat: r1.Interval{Lo: 0, Hi: 0}, Lng: s1.Interval{Lo: 1, Hi: math.Pi}},
+			{Lat: r1.Interval{Lo: math.Copysign(0, -1), Hi: 5e-324}, Lng: s1.Interval{Lo: -math.Pi, Hi: math.Pi}},
+		}[rng.Intn(5)]
 	}
 	a, b := rng.Range(-1.5, 1.5), rng.Range(-1.5, 1.5)
 	if a > b {
